@@ -1,7 +1,7 @@
 -------------------------------- MODULE HoistS --------------------------------
 (* C06: placement of hoisted literals.
 
-   The scope skeleton of a fixed program (harness/hoistgen.py TEMPLATE) with 18 places where one and
+   The scope skeleton of a fixed program (harness/hoistgen.py TEMPLATE) with 21 places where one and
    the same literal may occur.  A case is a non-empty subset of those places (at most MaxUses) and a
    literal kind.  Scopes: 1 module . 2 class K . 3 method K.m . 4 function outer . 5 function inner
    (in outer) . 6 comprehension (in inner) . 7 lambda (in inner) . 8 class L (in outer) . 9 class S . 10 function docfn.
@@ -20,7 +20,7 @@ Par  == <<0, 1, 2, 1, 4, 5, 5, 4, 1, 1>>
 Kind == <<"m", "c", "f", "f", "f", "g", "l", "c", "c", "f">>
 
 \* place -> <<scope it is written in, position kind>>
-Places == 0..17
+Places == 0..20
 PlaceTable == <<
   <<2, "body">>,        \* P0  K.attr = LIT                      (class body)
   <<3, "default">>,     \* P1  def m(self, a=LIT)                (evaluated in class K)
@@ -39,12 +39,15 @@ PlaceTable == <<
   <<9, "slots">>,       \* P14 __slots__ = (LIT, ...)
   <<4, "litstmt">>,     \* P15 a statement that is just LIT, in outer
   <<5, "fstr_text">>,   \* P16 literal text of an f-string in inner
-  <<10, "docstring">> >> \* P17 first statement of function docfn: docstring position
+  <<10, "docstring">>,  \* P17 first statement of function docfn: docstring position
+  <<5, "default">>,     \* P18 def inner(..., *, kw=LIT): keyword-only default (evaluated in outer)
+  <<7, "default">>,     \* P19 (lambda d=LIT: d)() in inner: lambda default (evaluated in inner)
+  <<6, "first_iter">> >> \* P20 [_ for _ in [LIT]] in inner: the first iterable is evaluated in inner
 PScope(p) == PlaceTable[p + 1][1]
 PPos(p)   == PlaceTable[p + 1][2]
 
 \* Python: where a place is evaluated
-EvalScope(p) == IF PPos(p) \in {"default", "decorator"} THEN Par[PScope(p)] ELSE PScope(p)
+EvalScope(p) == IF PPos(p) \in {"default", "decorator", "first_iter"} THEN Par[PScope(p)] ELSE PScope(p)
 RECURSIVE Ancestors(_)
 Ancestors(s) == IF s = 0 THEN {} ELSE {s} \cup Ancestors(Par[s])
 \* a name assigned in function/module scope h is visible from scope s iff h is an ancestor-or-self of s and s is reached
@@ -58,7 +61,7 @@ MustKeepLiteral(p) == PPos(p) \in {"pattern", "slots", "fstr_text", "docstring"}
 Hoistable(p, lit) == /\ PPos(p) \notin {"pattern", "slots", "fstr_text"}
                      /\ (PPos(p) \in {"litstmt", "docstring"} => lit \in {"none", "true"})
 \* the namespace node the mapper gives a use (defaults and decorators belong to the enclosing namespace)
-MNamespace(p) == IF PPos(p) \in {"default", "decorator"} THEN Par[PScope(p)] ELSE PScope(p)
+MNamespace(p) == IF PPos(p) \in {"default", "decorator", "first_iter"} THEN Par[PScope(p)] ELSE PScope(p)
 RECURSIVE NearestFn(_)
 NearestFn(s) == IF Kind[s] \in {"m", "f"} THEN s ELSE NearestFn(Par[s])
 RECURSIVE FnPath(_)
